@@ -220,9 +220,18 @@ Print Assumptions c16_env_ids_first.
 
 Theorem c16_env_requested_over_inherited : forall bid lid tid requested base cfd k v,
   lookup k requested = Some v -> bytes_eqb k K_BUILD_ID = false -> bytes_eqb k K_LANE_ID = false ->
+  process_assigned k = false ->
   lookup k (build_env bid lid tid requested true base cfd) = Some v.
 Proof. exact env_requested_over_inherited. Qed.
 Print Assumptions c16_env_requested_over_inherited.
+
+(* LLBUILD_TASK_ID and LLBUILD_CONTROL_FD are the process's own, whatever is requested or inherited (full strength:
+   this is the statement that failed before the repair a51183e, see c16_env_unrepaired_refuted). *)
+Theorem c16_env_process_ids_own : forall bid lid tid requested inherit base cfd,
+  lookup K_TASK_ID (build_env bid lid tid requested inherit base cfd) = Some tid /\
+  lookup K_CONTROL_FD (build_env bid lid tid requested inherit base cfd) = cfd.
+Proof. exact env_process_ids_own. Qed.
+Print Assumptions c16_env_process_ids_own.
 
 Theorem c16_env_child_view : forall bid lid tid requested inherit base cfd k,
   clean_key k = true -> forallb clean_key (map fst requested) = true ->
@@ -231,20 +240,14 @@ Theorem c16_env_child_view : forall bid lid tid requested inherit base cfd k,
 Proof. exact env_child_view. Qed.
 Print Assumptions c16_env_child_view.
 
-Theorem c16_env_task_id_when_not_shadowed : forall bid lid tid requested inherit base cfd,
-  lookup K_TASK_ID requested = None ->
-  (inherit = true -> lookup K_TASK_ID (map split_eq base) = None) ->
-  lookup K_TASK_ID (build_env bid lid tid requested inherit base cfd) = Some tid.
-Proof. exact env_task_id_when_not_shadowed. Qed.
-Print Assumptions c16_env_task_id_when_not_shadowed.
-
-(* "LLBUILD_* ids over both" does NOT hold for LLBUILD_TASK_ID (nor LLBUILD_CONTROL_FD): spawnProcess writes them with
-   setIfMissing after the requested and inherited entries.  Witness: base environment containing LLBUILD_TASK_ID=z. *)
-Theorem c16_env_task_id_overridable_refuted :
+(* The construction as it was before the repair: spawnProcess wrote LLBUILD_TASK_ID with setIfMissing after the
+   unfiltered requested and inherited entries.  Witness: base environment containing LLBUILD_TASK_ID=z (what an llbuild
+   started from an llbuild task inherits); kept in the check's corpus. *)
+Theorem c16_env_unrepaired_refuted :
   exists bid lid tid requested base,
-    lookup K_TASK_ID (build_env bid lid tid requested true base None) <> Some tid.
-Proof. exact env_task_id_overridable_refuted. Qed.
-Print Assumptions c16_env_task_id_overridable_refuted.
+    lookup K_TASK_ID (build_env_unrepaired bid lid tid requested true base None) <> Some tid.
+Proof. exact env_unrepaired_refuted. Qed.
+Print Assumptions c16_env_unrepaired_refuted.
 
 (* a requested key containing '=' yields two entries for one name in the child *)
 Theorem c16_env_unclean_key_refuted :
